@@ -38,7 +38,7 @@ Heads == <<[nif |-> 1, pos2 |-> 0, mixed |-> FALSE], [nif |-> 2, pos2 |-> 0, mix
            [nif |-> 2, pos2 |-> 1, mixed |-> TRUE]>>
 
 Idb(i, link, snap) == [t |-> "idb", link |-> link, snap |-> snap, name |-> Str(i), cmt |-> Str(i + 1), descr |-> Str(i + 2),
-                       filter |-> Str(i + 3), os |-> Str(i + 4), tsoff |-> (IF i % 5 = 2 THEN 5 ELSE 0)]
+                       filter |-> Str(i + 3), os |-> Str(i + 4), tsoff |-> (IF i = 2 THEN 5 ELSE 0)]
 NPk(s) == Len(Packets(s))
 
 InitPcap == /\ v \in VSet /\ head = 0 /\ free = TRUE
@@ -88,10 +88,14 @@ IdealRead(B, i, cut, k) ==
   ELSE IF B[i].off = cut THEN <<k, "eof">> ELSE <<k, "ueof">>
 
 Digest(i) == ToString(i)
-IdealPk(s) == [i \in 1..NPk(s) |->
-                 LET it == Packets(s)[i] IN
-                 [cap |-> it.cap, len |-> it.len, dl |-> it.cap, dd |-> Digest(i), td |-> Digest(100 + i), od |-> Digest(200 + i), s |-> it.s, ns |-> ExpNs(s, it.ns),
-                  ifc |-> (IF s.fmt = "ng" THEN it.ifc ELSE 0), lt |-> LinkOf(s, it),
+\* what an ideal reader hands back with WantMixedLinkType = mix (pcap: mix is FALSE)
+IdealPk(s, mix) ==
+               [j \in 1..Len(Expected(s, mix)) |->
+                 LET i == Expected(s, mix)[j]
+                     it == Packets(s)[i] IN
+                 [cap |-> it.cap, len |-> it.len, dl |-> it.cap, dd |-> Digest(i), td |-> Digest((IF mix THEN 1100 ELSE 100) + i), od |-> Digest(200 + i),
+                  s |-> it.s, ns |-> ExpNs(s, it.ns),
+                  ifc |-> (IF s.fmt = "ng" THEN it.ifc ELSE 0), lt |-> (IF mix THEN LinkOf(s, it) ELSE -1),
                   cm |-> (IF s.fmt = "ng" THEN it.cm ELSE <<>>), fl |-> (IF s.fmt = "ng" THEN it.fl ELSE -1),
                   hs |-> (IF s.fmt = "ng" THEN it.hs ELSE <<>>), dc |-> (IF s.fmt = "ng" THEN it.dc ELSE -1),
                   pid |-> (IF s.fmt = "ng" THEN it.pid ELSE -1), q |-> (IF s.fmt = "ng" THEN it.q ELSE -1),
@@ -99,7 +103,10 @@ IdealPk(s) == [i \in 1..NPk(s) |->
 IdealEvents(s) ==
   LET B == blk
       n == FileLenB(B)
-      pk == IdealPk(s)
+      cmix == s.fmt = "ng" /\ s.mixed          \* the configuration of the truncated re-reads
+      pk == IdealPk(s, cmix)
+      reads(mix) == [j \in 1..4 |-> [op |-> "read", mode |-> <<"copy", "zero", "optc", "optz">>[j], mix |-> mix, pk |-> IdealPk(s, mix),
+                                      end |-> "eof", link |-> FirstLink(s)]]
       \* maximal runs as the block-by-block reader produces them: offset 0, then per block its interior and its end
       run(m, lo, hi) == LET r == IdealRead(B, 1, lo, 0) IN
                         [op |-> "cuts", mode |-> m, lo |-> lo, hi |-> hi, k |-> r[1], end |-> r[2], tds |-> [j \in 1..r[1] |-> pk[j].td]]
@@ -111,8 +118,8 @@ IdealEvents(s) ==
   IN <<[op |-> "scn", scen |-> s],
        [op |-> "file", size |-> n, walk |-> [i \in 1..Len(B) |-> <<B[i].k, B[i].off, B[i].len, B[i].len>>],
         wofs |-> CallEnds(s, B), wdd |-> [i \in 1..NPk(s) |-> Digest(i)], wod |-> [i \in 1..NPk(s) |-> Digest(200 + i)]]>>
-     \o [j \in 1..4 |-> [op |-> "read", mode |-> <<"copy", "zero", "optc", "optz">>[j], pk |-> pk, end |-> "eof", link |-> FirstLink(s)]]
-     \o <<[op |-> "lib", status |-> "ok", pk |-> pk, link |-> FirstLink(s)]>>
+     \o reads(FALSE) \o (IF s.fmt = "ng" THEN reads(TRUE) ELSE <<>>)
+     \o <<[op |-> "lib", status |-> "ok", pk |-> IdealPk(s, FALSE), link |-> FirstLink(s)]>>
      \o cutev("copy") \o cutev("zero") \o <<[op |-> "done"]>>
 RECURSIVE JudgeAll(_, _, _)
 JudgeAll(st, evs, i) == IF i > Len(evs) THEN "ok"
@@ -137,6 +144,16 @@ PropRejectsEager ==
         st == [NewState EXCEPT !.sc = sc, !.B = B, !.td = [i \in 1..NPk(sc) |-> Digest(100 + i)], !.next = [m \in CutModes |-> EndOf(b) - 1]]
     IN Judge(st, [op |-> "cuts", mode |-> "copy", lo |-> EndOf(b) - 1, hi |-> EndOf(b), k |-> 1, end |-> "ueof",
                   tds |-> <<Digest(101)>>])[1] = "packet-not-wholly-in-prefix-returned"
+\* and so must a copying reader whose results share one AncillaryData array (every retained packet then carries the link
+\* type of the packet read last) on a file with two link types
+PropRejectsSharedAncillary ==
+  LET P == Packets(sc) IN
+  (sc.fmt = "ng" /\ sc.mixed /\ Len(P) >= 2 /\ \E i \in 1..Len(P) : LinkOf(sc, P[i]) # LinkOf(sc, P[Len(P)])) =>
+    LET pk == IdealPk(sc, TRUE)
+        shared == [j \in 1..Len(pk) |-> [pk[j] EXCEPT !.lt = pk[Len(pk)].lt]]
+        st == [NewState EXCEPT !.sc = sc, !.B = blk, !.filed = TRUE, !.wdd = [i \in 1..NPk(sc) |-> Digest(i)],
+                               !.wod = [i \in 1..NPk(sc) |-> Digest(200 + i)]]
+    IN Judge(st, [op |-> "read", mode |-> "copy", mix |-> TRUE, pk |-> shared, end |-> "eof", link |-> 0])[1] = "link-type-altered"
 \* rotated-comment pcapng scenarios only add the files with more than MaxPk packets
 Export == (sc.fmt = "pcap" \/ free \/ NPk(sc) > MaxPk) => PrintT("BEH " \o ToJson([scen |-> sc, size |-> FileLenB(blk),
                                    blocks |-> [i \in 1..Len(blk) |-> <<blk[i].k, blk[i].off, blk[i].len>>]]))
